@@ -295,7 +295,11 @@ func (s *Scenario) checkScan() {
 			}
 			if part != nil && !sh.dirty && int64(len(part)) >= r.End {
 				if string(part[r.Beg:r.End]) != string(v.Data[r.Beg:r.End]) {
-					w.viol("C09", "listed-range-bytes-differ", "range [%d,%d) of %s is listed as held but the staged bytes differ from what was sent", r.Beg, r.End, p.Name)
+					key := "listed-range-bytes-differ"
+					if sh.otherOffered {
+						key = "listed-range-of-superseded-version-clobbered"
+					}
+					w.viol("C09", key, "range [%d,%d) of %s#%.6s is listed as held but the staged bytes differ from what was sent (a part of another version of the name was offered since: %v)", r.Beg, r.End, p.Name, p.Hash, sh.otherOffered)
 				}
 			}
 		}
